@@ -233,10 +233,10 @@ func (e *c17rc) encByte(c byte, follow bool) byte {
 	return byte(sym)
 }
 
-// track starts following the next code value above low whose trailing bytes
-// are all zero; it reports whether the current interval contains one.
-func (e *c17rc) track() bool {
-	t := uint64(0x1000000) - (e.low & 0xFFFFFF)
+// track starts following the (j+1)-th code value above low whose trailing
+// bytes are all zero; it reports whether the current interval contains it.
+func (e *c17rc) track(j int) bool {
+	t := uint64(0x1000000) - (e.low & 0xFFFFFF) + uint64(j)<<24
 	if t >= uint64(e.rng) {
 		return false
 	}
@@ -269,39 +269,70 @@ func c17carryPayload(r *rand.Rand, n int) []byte {
 	put := func(c byte, follow bool) {
 		x = append(x, e.encByte(c, follow))
 	}
+	// The is-literal probabilities need ~450 literals to saturate; before that
+	// a boundary survives only a few literals.
+	if n > 700 && r.Intn(4) != 0 {
+		for k := 450 + r.Intn(100); k > 0; k-- {
+			put(byte(r.Intn(256))>>uint(r.Intn(8)), false)
+		}
+	}
 	for len(x) < n && len(x) < c17chunk64k-1 {
 		// some ordinary bytes first
 		for k := r.Intn(40); k > 0 && len(x) < n; k-- {
 			put(byte(r.Intn(256))>>uint(r.Intn(8)), false)
 		}
-		if !e.track() {
+		want := []int{1, 2, 3, 4, 5, 8, 16, 40, 100, 270, 270, 300}[r.Intn(12)]
+		if want > n-len(x) {
+			want = n - len(x)
+		}
+		// The boundary is lost whenever it falls into the "match" part of an
+		// is-literal bit (about 1.5 % per literal): try several boundaries and
+		// keep the one that survives longest.
+		snap, bestJ, bestLen := *e, -1, -1
+		for j := 0; j < 160; j++ {
+			c := snap
+			if !c.track(j) {
+				break
+			}
+			k := 0
+			for ; k < want && c.tracking; k++ {
+				c.encByte(0, true)
+			}
+			surv := k
+			if !c.tracking {
+				surv = k - 1
+			}
+			if surv > bestLen {
+				bestJ, bestLen = j, surv
+			}
+			if surv == want {
+				break
+			}
+		}
+		if bestJ < 0 || !e.track(bestJ) {
 			continue
 		}
-		want := []int{1, 2, 3, 4, 5, 8, 16, 40, 100, 270, 600}[r.Intn(11)]
-		for k := 0; k < want && e.tracking && len(x) < n; k++ {
+		for k := 0; k < bestLen && e.tracking && len(x) < n; k++ {
 			put(0, true)
 		}
 		if !e.tracking || len(x) >= n {
+			e.tracking = false
 			continue
 		}
+		c := *e
+		s := c.encByte(0, true)
 		switch r.Intn(4) {
 		case 0: // run out of input (or ordinary bytes) while still pending
-			e.tracking = false
 		case 1: // resolve downwards: a literal below the boundary's literal
-			c := *e
-			s := c.encByte(0, true)
 			if s > 0 {
 				put(byte(r.Intn(int(s))), false)
 			}
-			e.tracking = false
 		default: // resolve upwards: the carry
-			c := *e
-			s := c.encByte(0, true)
 			if s < 0xFF {
 				put(s+1+byte(r.Intn(0xFF-int(s))), false)
 			}
-			e.tracking = false
 		}
+		e.tracking = false
 		if r.Intn(3) == 0 {
 			break
 		}
